@@ -117,6 +117,27 @@ def known_match(entry, op, inp, obs):
     return False
 
 
+def long_case(rng, total):
+    """a document of `total` lines or more: many small paragraphs, every marker blanked, behind a header whose length
+    shifts every later line - a reader that works on batches of lines must not take a recovered blank for a boundary"""
+    lines = ['Format: https://www.debian.org/doc/packaging-manuals/copyright-format/1.0/', 'Comment: c']
+    for _ in range(rng.randint(0, 9)):
+        lines.append(' shifted by one line')
+    while len(lines) < total:
+        lines.append('')
+        lines.append('Files: ' + rng.choice(('*', 'src/*')))
+        lines.append('Copyright: 2001 Foo')
+        lines.append('License: ' + rng.choice(('MIT', 'GPL-2+')))
+        for _ in range(rng.choice((1, 1, 2))):
+            lines.append(' some text')
+            lines.append(' .')
+            lines.append(' more text')
+    marks = [[j, rng.choice(REPL[:5])] for j, l in enumerate(lines) if l == ' .']
+    return [lines, marks]
+
+
 def streams(tier, rng):
     n = 5000 if tier == 'quick' else 80000
     yield {'name': 'documents-with-blanked-markers', 'op': 'C12', 'cases': (case(rng) for _ in range(n))}
+    sizes = (1030, 2060, 2070, 4110) if tier == 'quick' else (520, 1030, 1040, 2060, 2070, 2080, 3000, 4110, 4120, 5000, 8200, 10010)
+    yield {'name': 'long-documents', 'op': 'C12', 'cases': (long_case(rng, s) for s in sizes)}
